@@ -2,6 +2,8 @@ use crate::engine::Prop;
 
 pub mod c01;
 pub mod c02;
+pub mod c03;
+pub mod c04;
 pub mod c05;
 pub mod ppcommon;
 
@@ -9,6 +11,8 @@ pub fn by_id(id: &str) -> Option<Box<dyn Prop>> {
     match id {
         "C01" => Some(Box::new(c01::C01)),
         "C02" => Some(Box::new(c02::C02)),
+        "C03" => Some(Box::new(c03::C03)),
+        "C04" => Some(Box::new(c04::C04)),
         "C05" => Some(Box::new(c05::C05)),
         _ => None,
     }
